@@ -18,7 +18,8 @@ Inductive op :=
 | OpHelp                      (* Parser.WriteHelp *)
 | OpMan                       (* Parser.WriteManPage, date pinned by SOURCE_DATE_EPOCH=86400 *)
 | OpComplete (args : list str)    (* ParseArgs with GO_FLAGS_COMPLETION set and a CompletionHandler *)
-| OpInspect.                      (* dump of the public model *)
+| OpInspect                       (* dump of the public model *)
+| OpAttach (a : attach_op).       (* AddGroup / AddCommand / AddOption in the middle of a history *)
 
 Record scenario := {
   sc_cfg : pconfig;
@@ -350,6 +351,12 @@ Definition run_op (sc : scenario) (w : world) (o : op) : world * str * bool (* s
                   (line "model" (render_cmd (cmd_depth (w_tree w)) (pc_nsdelim (sc_cfg sc)) (pc_envdelim (sc_cfg sc)) (w_tree w))), false)
   | OpMan =>
     (w, render_op sc w "man" None None None (line "bytes" (hex_of_str (write_man (sc_cfg sc) (w_tree w) (s2l "2 January 1970")))), false)
+  | OpAttach a =>
+    match apply_attach (pc_nsdelim (sc_cfg sc)) w a with
+    | Ok w' => (w', render_op sc w' "attach" None None None [], false)
+    | Err e => (w, render_op sc w "attach" None (Some e) None [], false)
+    | Panic t => (w, render_op sc w "attach" (Some (s2l "PANIC:" ++ t)) None None [], true)
+    end
   end.
 
 Fixpoint run_ops (sc : scenario) (w : world) (ops : list op) : str :=
